@@ -10,43 +10,46 @@ Import ListNotations.
 Require Import Verif.Session.Pipeline Verif.Session.Proofs.
 
 (** The unrestricted claim "rejected before execution => no effect" is FALSE for the faithful model
-    (finding F2). Witnesses, each replayed on the real engine by the harness:
-    (function f (i64) i64 :merge (nope old new)) and (datatype d (va i64) (vb nope)) from the
-    initial state leave declarations behind. *)
+    (finding F2, what remains of it after repository commit 473a35e). Witnesses, each replayed on the
+    real engine by the harness:
+    - (datatype d (va i64) (vb nope)): the sort and the first constructor stay declared;
+    - (ruleset r) then (function r (i64) i64 :merge (min old new)): typechecks, is then rejected by
+      check_shadowing, the signature stays in TypeInfo;
+    - (let $g 1) then (let $g "s"): rejected by check_shadowing, but the global's sort changed. *)
 Theorem c09_reject_no_effect_refuted :
-  (exists s' e, step init (CFunction (U 10) [U 0] (U 0) (Some (ECall (U 14) [EVar (U 2); EVar (U 3)]))) = (s', RReject e)
+  (exists s' e, step init (CDatatype (U 11) [(U 12, [U 0]); (U 13, [U 14])]) = (s', RReject e)
                 /\ ~ sess_decl_eq init s')
-  /\ (exists s' e, step init (CDatatype (U 11) [(U 12, [U 0]); (U 13, [U 14])]) = (s', RReject e)
-                /\ ~ sess_decl_eq init s').
-Proof. exact (conj bad_merge_leaves_signature bad_variant_leaves_sort_and_constructor). Qed.
+  /\ rejected_with_effect (fst (step init (CRuleset (U 15))))
+       (CFunction (U 15) [U 0] (U 0) (Some (EPrim PMin [EVar (U 2); EVar (U 3)])))
+  /\ rejected_with_effect (fst (step init (CAct (ALet (G 16) EInt)))) (CAct (ALet (G 16) EStr)).
+Proof.
+  exact (conj bad_variant_leaves_sort_and_constructor
+           (conj shadowing_after_typecheck_leaves_signature second_let_changes_global_sort)).
+Qed.
 Print Assumptions c09_reject_no_effect_refuted.
 
-(** same root cause, three more shapes: constructor with a non-eq output sort; a duplicate function
-    declaration REPLACES the recorded signature before it is rejected; a declaration rejected by
-    check_shadowing (the name is a ruleset) after typechecking has recorded it *)
-Theorem c09_reject_no_effect_refuted_more :
-  rejected_with_effect init (CConstructor (U 10) [U 0] (U 0))
-  /\ rejected_with_effect (fst (step init (CFunction (U 10) [U 0] (U 0) (Some (EPrim PMin [EVar (U 2); EVar (U 3)])))))
-       (CFunction (U 10) [U 0; U 0] (U 0) (Some (EPrim PMin [EVar (U 2); EVar (U 3)])))
-  /\ rejected_with_effect (fst (step init (CRuleset (U 15))))
-       (CFunction (U 15) [U 0] (U 0) (Some (EPrim PMin [EVar (U 2); EVar (U 3)]))).
-Proof.
-  exact (conj ctor_non_eq_leaves_signature (conj dup_overwrites_signature shadowing_after_typecheck_leaves_signature)).
-Qed.
-Print Assumptions c09_reject_no_effect_refuted_more.
-
-(** F2 and F9 inside the model: the leftover signature makes a later, well-typed command panic
-    (lib.rs:2700), and a merge expression that calls the function being declared panics (lib.rs:744) *)
+(** F2 inside the model: the leftover signature makes a later, well-typed command panic
+    (lib.rs:2700 `self.functions[name]`) *)
 Theorem c09_leftover_panics :
-  snd (run init [CFunction (U 10) [U 0] (U 0) (Some (ECall (U 14) [EVar (U 2); EVar (U 3)]));
-                 CFunction (U 10) [U 0] (U 0) (Some (EPrim PMin [EVar (U 2); EVar (U 3)]));
-                 CAct (ASet (U 10) [EInt] EInt)])
-    = [RReject EBadMerge; RReject EDupFunction; RPanic]
-  /\ snd (run init [CDatatype (U 11) [(U 12, [U 0]); (U 13, [U 14])]; CAct (ADo (ECall (U 12) [EInt]))])
+  snd (run init [CDatatype (U 11) [(U 12, [U 0]); (U 13, [U 14])]; CAct (ADo (ECall (U 12) [EInt]))])
     = [RReject (ELaterPart EUndefinedSort); RPanic]
-  /\ snd (step init (CFunction (U 10) [U 0] (U 0) (Some (ECall (U 10) [EVar (U 2)])))) = RPanic.
-Proof. exact (conj f2_replay_function (conj f2_replay_datatype f9_replay)). Qed.
+  /\ snd (run init [CRuleset (U 15); CFunction (U 15) [U 0] (U 0) (Some (EPrim PMin [EVar (U 2); EVar (U 3)]));
+                    CAct (ASet (U 15) [EInt] EInt)])
+    = [RAccept; RReject EShadowing; RPanic].
+Proof. exact (conj f2_replay_datatype f2_replay_shadowing). Qed.
 Print Assumptions c09_leftover_panics.
+
+(** repaired by 473a35e (the model follows the repaired order): a function with a bad or
+    self-referential (F9) merge expression, a constructor with a non-eq output and a duplicate
+    declaration with another signature are rejected with NO effect *)
+Theorem c09_function_decl_now_atomic :
+  step init (CFunction (U 10) [U 0] (U 0) (Some (ECall (U 14) [EVar (U 2); EVar (U 3)]))) = (init, RReject EBadMerge)
+  /\ step init (CFunction (U 10) [U 0] (U 0) (Some (ECall (U 10) [EVar (U 2)]))) = (init, RReject EBadMerge)
+  /\ step init (CConstructor (U 10) [U 0] (U 0)) = (init, RReject ECtorOutputNotSort)
+  /\ (let s := fst (step init (CFunction (U 10) [U 0] (U 0) (Some (EPrim PMin [EVar (U 2); EVar (U 3)])))) in
+      step s (CFunction (U 10) [U 0; U 0] (U 0) (Some (EPrim PMin [EVar (U 2); EVar (U 3)]))) = (s, RReject EDupFunction)).
+Proof. exact (conj bad_merge_clean (conj self_merge_clean (conj ctor_non_eq_clean dup_other_sig_clean))). Qed.
+Print Assumptions c09_function_decl_now_atomic.
 
 (** PARTIAL 1: for every state and every command whose typechecking is pure — ruleset, rule, run,
     check, push, pop, print-size, and the top-level actions set / union / expression — a rejection
@@ -57,10 +60,11 @@ Proof. exact reject_no_effect_pure. Qed.
 Print Assumptions c09_reject_no_effect_partial.
 
 (** PARTIAL 2: single-part declarations (sort, presort instance, function, constructor, let) rejected
-    by a check that precedes the first mutation (undefined sort, sort already bound, name bound as a
-    function, unknown presort / bad presort arguments, ill-typed let body) leave the state unchanged.
-    The excluded errors are exactly the late ones: EDupFunction, ECtorOutputNotSort, EBadMerge,
-    EShadowing, and ELaterPart of compound declarations (datatype, relation). *)
+    by the typechecker (undefined sort, sort already bound, name bound as a function, unknown presort /
+    bad presort arguments, duplicate function, constructor output not an eq-sort, bad merge expression,
+    ill-typed let body) leave the state unchanged. The only excluded errors are the late ones:
+    EShadowing (raised after typechecking has recorded the declaration) and ELaterPart of compound
+    declarations (datatype, relation) — exactly the remaining F2 witnesses. *)
 Theorem c09_reject_no_effect_partial_decl : forall s c s' e,
   single_decl c = true -> step s c = (s', RReject e) -> early e = true -> s' = s.
 Proof. exact reject_no_effect_early. Qed.
@@ -93,14 +97,14 @@ Print Assumptions c09_accept_extends_ruleset.
 (** Panics need an inconsistent declaration state: if every function and global the typechecker
     knows has a table ([fn_closed]), then no command that only USES declarations (rule, check, run,
     push, pop, print-size, set / union / expression actions) reaches the `self.functions[name]`
-    panic. The initial state is closed; the rejected declaration of F2 breaks closedness. *)
+    panic. The initial state is closed; the rejected datatype declaration of F2 breaks closedness. *)
 Theorem c09_no_panic_partial : forall F st c,
   fn_closed F -> uses_only c = true -> snd (step (F, st) c) <> RPanic.
 Proof. exact no_panic_when_closed. Qed.
 Print Assumptions c09_no_panic_partial.
 
 Theorem c09_reject_breaks_closed_refuted :
-  fn_closed init_frame /\ exists s' e, step init (CFunction (U 10) [U 0] (U 0) (Some (ECall (U 14) [EVar (U 2); EVar (U 3)]))) = (s', RReject e)
+  fn_closed init_frame /\ exists s' e, step init (CDatatype (U 11) [(U 12, [U 0]); (U 13, [U 14])]) = (s', RReject e)
                /\ ~ fn_closed (fst s').
 Proof. exact (conj closed_init f2_breaks_closed). Qed.
 Print Assumptions c09_reject_breaks_closed_refuted.
